@@ -348,6 +348,14 @@ def run(P, R, tier):
     R.floor("DTYPE.raw sites (i-vector)", n_dt, 4)
     from ..engines import traps as _traps
     _traps.check(P, R, ['ivector'], scope='ivector:')
+    from ..engines import own as _oro
+    _own_ro = _oro.Own(P)
+    n_ro = 0
+    n_ro += _oro.check_param_readonly(P, R, _own_ro, 'ivector:m_step', ['stats'], why='the statistics / data handed to one step are changed by it: a second step from the same object (several clients adapted from one set of statistics, a repeated call) computes from different values')
+    n_ro += _oro.check_param_readonly(P, R, _own_ro, 'ivector:e_step', ['data'], why='the statistics / data handed to one step are changed by it: a second step from the same object (several clients adapted from one set of statistics, a repeated call) computes from different values')
+    R.floor('OWN.readonly parameters', n_ro, 2)
+    from ..engines import proto as _pst
+    _pst.check_standins(P, R, 'ivector:IVectorMachine.fit')
 
 
 EXPLANATION += ' Also: literal coefficient 2 of the Snorm cross term, no division in the E-step sums, the M-step stores T on every call (solved from both accumulators) and sigma under update_sigma; posterior moments are opaque to the sign rules (their sign is data dependent); the kernels may be written out in place or moved into a helper; (MEMO) no memo derived from T / sigma survives their update; (DTYPE.raw).'
